@@ -1,6 +1,6 @@
 (* Wire entry points of the C18 model (DataSet operation sequences on a store of data sets). *)
 From Coq Require Import ZArith List QArith Qcanon Bool.
-From SG Require Import Base.Sx Base.QcUtil Model.DataSet.
+From SG Require Import Base.Sx Base.QcUtil Model.DataSet Model.DataSetOff.
 Import ListNotations.
 Open Scope Z_scope.
 
@@ -160,13 +160,147 @@ Fixpoint run (v : variant) (st : store) (ops : list sx) : list sx :=
   | op :: r => let '(st', o) := step v st op in o :: run v st' r
   end.
 
-(* sub 0: ((dataset ...) (op ...) (dedup fullcmp)) -> (observation ...) *)
+(* ==== deepening round: store machine over data sets WITH the accumulated offset (Model/DataSetOff.v) =====================
+   snapshot = the 10 fields of of_ds followed by the offset; variant = (dedup fullcmp offset refuse);
+   additional operations: 14 copy, 15 remove_labels, 16 getters. *)
+Definition of_dso (d : dso) : sx :=
+  match of_ds (base d) with
+  | Lv l => Lv (l ++ [of_fac (soff d)])
+  | s => s
+  end.
+Definition get_dso (s : sx) : option dso :=
+  match s with
+  | Lv [vals; labs; dm; fl; sh; sc; rg; fc; mn; mx; off] =>
+    match get_ds (Lv [vals; labs; dm; fl; sh; sc; rg; fc; mn; mx]), get_fac off with
+    | Some b, Some o => Some (mkDSO b o)
+    | _, _ => None
+    end
+  | Lv [vals; labs] => match get_ds s with Some b => Some (mkDSO b FNone) | None => None end
+  | _ => None
+  end.
+
+Definition store2 := list dso.
+Definition sget2 (st : store2) (h : Z) : option dso := if h <? 0 then None else nth_error st (Z.to_nat h).
+Definition sset2 (st : store2) (h : Z) (d : dso) : store2 := upd (Z.to_nat h) d st.
+Definition of_result2 (st : store2) (h : Z) (r : result_o) : store2 * sx :=
+  let '(d, e) := r in (sset2 st h d, Lv [sx_bool e; of_dso d]).
+
+Definition step2 (v : variant2) (st : store2) (op : sx) : store2 * sx :=
+  let vo := v_offset v in
+  match op with
+  | Lv (Zv code :: Zv h :: args) =>
+    match sget2 st h with
+    | None => (st, sx_err 10)
+    | Some d =>
+      match code, args with
+      | 1, [lo; hi; ov] =>
+        match get_Qc lo, get_Qc hi, get_bool ov with
+        | Some lo, Some hi, Some ov => of_result2 st h (scale_range_o vo lo hi ov d)
+        | _, _, _ => (st, sx_err 11)
+        end
+      | 2, [a; ov] =>
+        match get_arg a, get_bool ov with
+        | Some a, Some ov => of_result2 st h (scale_factor_o vo a ov d)
+        | _, _ => (st, sx_err 12)
+        end
+      | 3, [a; ov] =>
+        match get_arg a, get_bool ov with
+        | Some a, Some ov => of_result2 st h (shift_value_o vo a ov d)
+        | _, _ => (st, sx_err 13)
+        end
+      | 4, [] => of_result2 st h (revert_o vo d)
+      | 5, [perm] =>
+        match get_Lnat perm with
+        | Some perm => of_result2 st h (shuffle_o perm d)
+        | None => (st, sx_err 15)
+        end
+      | 6, [idx] =>
+        match get_Lnat idx with
+        | Some idx =>
+          let '(d', e) := mbf_o idx d in
+          (sset2 st h d', Lv [sx_bool e; of_dso d'; sx_bool (same_index_set idx (boundary_idx (base d)))])
+        | None => (st, sx_err 16)
+        end
+      | 7, [] =>
+        if update_internal_raises (base d) && negb (is_empty (base d)) then (st, Lv [Zv 1]) else
+        let ps := split_labels_o d in
+        (st ++ ps, Lv [Zv 0; of_LZ (distinct_labels (rows (base d))); Lv (map of_dso ps)])
+      | 8, [p] =>
+        match get_Qc p with
+        | Some p => if update_internal_raises (base d) then (st, Lv [Zv 1]) else
+                    let '(a, b) := split_pieces_o p d in (st ++ [a; b], Lv [Zv 0; of_dso a; of_dso b])
+        | None => (st, sx_err 18)
+        end
+      | 9, [] => if update_internal_raises (base d) then (st, Lv [Zv 1]) else
+                 let '(a, b) := split_without_labels_o d in (st ++ [a; b], Lv [Zv 0; of_dso a; of_dso b])
+      | 10, [idx] =>
+        match get_LZ idx with
+        | Some idx =>
+          match remove_samples_o v idx d with
+          | (d', Some r) => (sset2 st h d' ++ [r], Lv [Zv 0; of_dso d'; of_dso r])
+          | (d', None) => (sset2 st h d', Lv [Zv 1; of_dso d'])
+          end
+        | None => (st, sx_err 20)
+        end
+      | 11, [Zv h2] =>
+        match sget2 st h2 with
+        | Some d2 =>
+          match concatenate_o v d d2 with
+          | CNewO r => (st ++ [r], Lv [Zv 0; Zv 0; of_dso r])
+          | CSelfO => (st, Lv [Zv 0; Zv 1])
+          | COtherO => (st, Lv [Zv 0; Zv 2])
+          | CRaiseO => (st, Lv [Zv 1])
+          end
+        | None => (st, sx_err 10)
+        end
+      | 12, [Zv h2] =>
+        match sget2 st h2 with
+        | Some d2 => (st, match same_scaling (v_base v) (base d) (base d2) with Some b => Lv [Zv 0; sx_bool b] | None => Lv [Zv 1] end)
+        | None => (st, sx_err 10)
+        end
+      | 13, [snap] =>      (* harness-directed replacement of a stored data set (after implementation-side interference) *)
+        match get_dso snap with
+        | Some d' => (sset2 st h d', Lv [Zv 0])
+        | None => (st, sx_err 23)
+        end
+      | 14, [] => (st ++ [copy_o d], Lv [Zv 0; of_dso (copy_o d)])
+      | 15, [p; idx] =>    (* remove_labels: (raised, state, the index list is an admissible rnd.sample result) *)
+        match get_Qc p, get_Lnat idx with
+        | Some p, Some idx =>
+          if update_internal_raises (base d) then (st, Lv [Zv 1; of_dso d; Zv 1]) else
+          let d' := remove_labels_o p idx d in
+          (sset2 st h d', Lv [Zv 0; of_dso d'; sx_bool (labels_idx_ok p idx (base d))])
+        | _, _ => (st, sx_err 25)
+        end
+      | 16, [] =>          (* getters: (min max length labels number_labels has_labelless is_empty) *)
+        (st, Lv [of_optrow (data_min (values (base d))); of_optrow (data_max (values (base d))); Zv (Z.of_nat (get_length (base d)));
+                 of_LZ (get_labels_sorted (base d)); Zv (Z.of_nat (get_number_labels (base d))); sx_bool (has_labelless (base d));
+                 sx_bool (is_empty (base d))])
+      | _, _ => (st, sx_err 1)
+      end
+    end
+  | _ => (st, sx_err 2)
+  end.
+
+Fixpoint run2 (v : variant2) (st : store2) (ops : list sx) : list sx :=
+  match ops with
+  | [] => []
+  | op :: r => let '(st', o) := step2 v st op in o :: run2 v st' r
+  end.
+
+(* sub 0: ((dataset ...) (op ...) (dedup fullcmp)) -> (observation ...)                [first release, kept]
+   sub 1: ((dataset-with-offset ...) (op ...) (dedup fullcmp offset refuse)) -> (observation ...) *)
 Definition entry_C18 (sub : Z) (a : sx) : sx :=
   match sub, a with
   | 0, Lv [Lv inits; Lv ops; Lv [vd; vf]] =>
     match opt_all (map get_ds inits), get_bool vd, get_bool vf with
     | Some st, Some vd, Some vf => Lv (run (mkVariant vd vf) st ops)
     | _, _, _ => sx_err 3
+    end
+  | 1, Lv [Lv inits; Lv ops; Lv [vd; vf; vo; vr]] =>
+    match opt_all (map get_dso inits), get_bool vd, get_bool vf, get_bool vo, get_bool vr with
+    | Some st, Some vd, Some vf, Some vo, Some vr => Lv (run2 (mkV2 (mkVariant vd vf) vo vr) st ops)
+    | _, _, _, _, _ => sx_err 3
     end
   | _, _ => sx_err 0
   end.
